@@ -200,8 +200,15 @@ def main(argv=None):
     # loop-invariant / variant / intermediate-cut obligations are lemmas FOR the postconditions of their function: when the code
     # no longer has that loop (or path) but the function's postconditions are still generated, nothing has been lost
     _aux = _re2.compile(r"/(inv|dec)[^/]*#\d+(/|$)|/cut:|/cases_exhaustive|/lemma/|/control/|/cover")
-    heads = {"/".join(o.split("/")[:2]) for o in got if "/post/" in o or "/struct/" in o}
-    missing = sorted(o for o in expected - got if _norm(o) not in got_norm and not (_aux.search(o) and "/".join(o.split("/")[:2]) in heads))
+    # ... and obligations that exist only on some Python-level paths of a function (a special case for dim == 2, a raise
+    # branch, ...) come and go with harmless restructurings.  What must never happen silently is that a FUNCTION under contract
+    # stops producing obligations at all: the guard is per function head (property/function[configuration])
+    def _head(o):
+        return "/".join(o.split("/")[:2])
+
+    heads = {_head(o) for o in got}
+    missing_all = sorted(o for o in expected - got if _norm(o) not in got_norm)
+    missing = [o for o in missing_all if _head(o) not in heads]
 
     known = load_json(os.path.join(VERIF, "known_findings.json"), {"findings": [], "fixed": []})
     known_by_ob = {}
@@ -361,7 +368,7 @@ def main(argv=None):
             backends=backends, solver_time_s=round(sum(ob.ms for ob in obs) / 1000, 3),
             cover_checks=sum(1 for ob in obs if ob.kind == "cover"), control_checks=sum(1 for ob in obs if ob.kind == "control"),
             untranslatable=[dict(family=n, reason=m[:400]) for n, k, m in fam_errors],
-            missing_vs_baseline=missing, guards_undetermined=guards_unknown, cross_check=xcheck, assume_sites=assume_sites(ctxs),
+            missing_vs_baseline=missing, renumbered_or_path_dependent_vs_baseline=[o for o in missing_all if o not in missing][:50], guards_undetermined=guards_unknown, cross_check=xcheck, assume_sites=assume_sites(ctxs),
             proved_functions=sorted({ob.fn for ob in obs if ob.fn and ob.status in ("discharged", "ok")} - {ob.fn for ob in obs if ob.fn and ob.status not in ("discharged", "ok", "guard_unknown")}),
             bounded=l3 if l3.get("ran") else dict(ran=False, reason=l3.get("reason")),
             lemma_library=lemma_lib,
